@@ -272,6 +272,17 @@ def simd_check(ctx, name, cfile, cflags, leanfile, via_stdin):
     ctx.log("intrinsic semantics (%s) validated against this CPU: %s" % (name, tail))
 
 
+def simd_check_script(ctx, name):
+    """as simd_check, for a validation that ships its own driver script lean/simdcheck/<name>/run.sh (last output line must say `0 mismatches`)"""
+    e = dict(os.environ); e["LIBSODIUM_SRC"] = os.path.join(REPO, "src", "libsodium"); e["TMPDIR"] = ctx.scratch
+    q = subprocess.run(["sh", os.path.join(LEAN, "simdcheck", name, "run.sh")], cwd=LEAN, capture_output=True, text=True, env=e)
+    tail = (q.stdout + q.stderr).strip().split("\n")[-1]
+    ctx.stats["intrinsic_semantics_vs_cpu:" + name] = tail
+    if q.returncode != 0 or not re.search(r"\b0 mismatches", tail):
+        raise BrokenCheck("simdcheck %s: the Lean intrinsic semantics disagree with the CPU (or the macro text copied into the validation program is no longer the headers' text): %s" % (name, (q.stdout + q.stderr)[-800:]))
+    ctx.log("intrinsic semantics (%s) validated against this CPU: %s" % (name, tail))
+
+
 def strip_comments(src):
     # remove /- ... -/ (nested not handled beyond one level, fine for our sources) and -- comments
     out = []
